@@ -195,4 +195,110 @@ example : ruleProperNoun env0 [pnRow]
 /-- … and nothing on the canonical spelling itself -/
 example : docRule asciiCls noExt (ruleProperNoun env0 [pnRow]) ['P', 'o', 'r', 't', ' ', 'a', 'u'] = .ok [] := by decide
 
+/-! ## non-vacuity, continued: every theorem above applied, all its hypotheses together -/
+
+/-- the text-level hypotheses on `in tact.¶¶` + `In  tact` (no url / e-mail / hostname token) -/
+theorem paragraphPair_intact : ParagraphPair asciiCls ['i', 'n', ' ', 't', 'a', 'c', 't', '.'] ['I', 'n', ' ', ' ', 't', 'a', 'c', 't'] 2
+    noExt noExt noExt where
+  cls_ok := ⟨by decide, by decide, by
+    intro c h
+    simp only [asciiCls, isAsciiDigit, Bool.and_eq_true, decide_eq_true_eq] at h
+    refine ⟨?_, ?_, ?_⟩
+    · simp only [isAsciiAlpha, Bool.or_eq_false_iff, Bool.and_eq_false_imp, decide_eq_true_eq, decide_eq_false_iff_not]
+      constructor <;> intro h3 <;> intro h4
+      · exact absurd (Char.le_trans h3 h.2) (by decide)
+      · exact absurd (Char.le_trans h3 h.2) (by decide)
+    · intro hc; subst hc; exact absurd h.1 (by decide)
+    · intro hc; subst hc; exact absurd h.1 (by decide)⟩
+  two := by decide
+  no_nl_end := by decide
+  d_head := by decide
+  no_quotes := by decide
+  ext_local := ⟨fun _ _ => rfl, fun _ => rfl⟩
+  ext_ok_p := by intro _ _ _ h; cases h
+  ext_ok_d := by intro _ _ _ h; cases h
+  ext_no_nl := by intro _ _ _ h; cases h
+
+/-- … and on `port Au.¶¶` + `Port  AU` -/
+theorem paragraphPair_port : ParagraphPair asciiCls ['p', 'o', 'r', 't', ' ', 'A', 'u', '.'] ['P', 'o', 'r', 't', ' ', ' ', 'A', 'U'] 2
+    noExt noExt noExt :=
+  { paragraphPair_intact with
+    no_nl_end := (by decide), d_head := (by decide), no_quotes := (by decide),
+    ext_local := ⟨fun _ _ => rfl, fun _ => rfl⟩, ext_ok_p := (by intro _ _ _ h; cases h),
+    ext_ok_d := (by intro _ _ _ h; cases h), ext_no_nl := (by intro _ _ _ h; cases h) }
+
+/-- non-vacuity of `exactPhrase_loc` (both hypotheses together), hence of `mapPhrase_xlocal`, `matches_translation`,
+`mapPhrase_appends`: the tree of `in tact` is `Loc` -/
+theorem intactPat_loc : intactPat.Loc := exactPhrase_loc env0 phIntact.1 phIntact.2 (by decide) intactPat rfl
+
+example : XLocalE (mapPhrasePiece env0 intactPat [['i', 'n', 't', 'a', 'c', 't']]) := mapPhrase_xlocal env0 intactPat intactPat_loc _
+
+/-- non-vacuity of `matches_translation` / `matches_left`: `In  tact` behind `ab ` and in front of ` now` -/
+example : intactPat.matcher env0 (['a', 'b', ' '] ++ ['I', 'n', ' ', ' ', 't', 'a', 'c', 't'])
+      (shiftDoc 3 2 [⟨⟨0, 2⟩, .word⟩, ⟨⟨2, 4⟩, .space 2⟩, ⟨⟨4, 8⟩, .word⟩]) =
+    intactPat.matcher env0 ['I', 'n', ' ', ' ', 't', 'a', 'c', 't'] [⟨⟨0, 2⟩, .word⟩, ⟨⟨2, 4⟩, .space 2⟩, ⟨⟨4, 8⟩, .word⟩] :=
+  matches_translation env0 intactPat intactPat_loc _ _ _ 2
+
+example : intactPat.matcher env0 (['I', 'n', ' ', ' ', 't', 'a', 'c', 't'] ++ [' ', 'n', 'o', 'w'])
+      [⟨⟨0, 2⟩, .word⟩, ⟨⟨2, 4⟩, .space 2⟩, ⟨⟨4, 8⟩, .word⟩] =
+    intactPat.matcher env0 ['I', 'n', ' ', ' ', 't', 'a', 'c', 't'] [⟨⟨0, 2⟩, .word⟩, ⟨⟨2, 4⟩, .space 2⟩, ⟨⟨4, 8⟩, .word⟩] :=
+  matches_left env0 intactPat intactPat_loc _ _ _ (by decide)
+
+example : intactPat.matcher env0 ['I', 'n', ' ', ' ', 't', 'a', 'c', 't'] [⟨⟨0, 2⟩, .word⟩, ⟨⟨2, 4⟩, .space 2⟩, ⟨⟨4, 8⟩, .word⟩] = .ok 3 := by
+  decide
+
+/-- non-vacuity of `mapPhrase_paragraphs_separately` (its conclusion is computed in the `example` above: one lint per
+paragraph) -/
+example : docRule asciiCls noExt (ruleMapPhrase env0 intactPat [['i', 'n', 't', 'a', 'c', 't']])
+      ((['i', 'n', ' ', 't', 'a', 'c', 't', '.'] ++ List.replicate 2 '\n') ++ ['I', 'n', ' ', ' ', 't', 'a', 'c', 't']) =
+    joinE (['i', 'n', ' ', 't', 'a', 'c', 't', '.'] ++ List.replicate 2 '\n').length
+      (docRule asciiCls noExt (ruleMapPhrase env0 intactPat [['i', 'n', 't', 'a', 'c', 't']]) (['i', 'n', ' ', 't', 'a', 'c', 't', '.'] ++ List.replicate 2 '\n'))
+      (docRule asciiCls noExt (ruleMapPhrase env0 intactPat [['i', 'n', 't', 'a', 'c', 't']]) ['I', 'n', ' ', ' ', 't', 'a', 'c', 't']) :=
+  mapPhrase_paragraphs_separately env0 intactPat intactPat_loc _ asciiCls _ _ 2 _ _ _ paragraphPair_intact
+
+/-- non-vacuity of `exactPhrases_loc` and `phraseCorrection_paragraphs_separately`: `new_exact_phrases(["in tact"], …)` -/
+example : (RPat.either (.cons intactPat .nil)).Loc := exactPhrases_loc env0 [phIntact] (by decide) _ rfl
+
+example : docRule asciiCls noExt (ruleMapPhrase env0 (.either (.cons intactPat .nil)) [['i', 'n', 't', 'a', 'c', 't']])
+      ((['i', 'n', ' ', 't', 'a', 'c', 't', '.'] ++ List.replicate 2 '\n') ++ ['I', 'n', ' ', ' ', 't', 'a', 'c', 't']) =
+    joinE (['i', 'n', ' ', 't', 'a', 'c', 't', '.'] ++ List.replicate 2 '\n').length
+      (docRule asciiCls noExt (ruleMapPhrase env0 (.either (.cons intactPat .nil)) [['i', 'n', 't', 'a', 'c', 't']])
+        (['i', 'n', ' ', 't', 'a', 'c', 't', '.'] ++ List.replicate 2 '\n'))
+      (docRule asciiCls noExt (ruleMapPhrase env0 (.either (.cons intactPat .nil)) [['i', 'n', 't', 'a', 'c', 't']]) ['I', 'n', ' ', ' ', 't', 'a', 'c', 't']) :=
+  phraseCorrection_paragraphs_separately env0 [phIntact] (by decide) _ rfl _ asciiCls _ _ 2 _ _ _ paragraphPair_intact
+
+/-- non-vacuity of `closedCompound_paragraphs_separately`: `new_closed_compound("in tact", "intact")` -/
+example : docRule asciiCls noExt (ruleMapPhrase env0 intactPat [['i', 'n', 't', 'a', 'c', 't']])
+      ((['i', 'n', ' ', 't', 'a', 'c', 't', '.'] ++ List.replicate 2 '\n') ++ ['I', 'n', ' ', ' ', 't', 'a', 'c', 't']) =
+    joinE (['i', 'n', ' ', 't', 'a', 'c', 't', '.'] ++ List.replicate 2 '\n').length
+      (docRule asciiCls noExt (ruleMapPhrase env0 intactPat [['i', 'n', 't', 'a', 'c', 't']]) (['i', 'n', ' ', 't', 'a', 'c', 't', '.'] ++ List.replicate 2 '\n'))
+      (docRule asciiCls noExt (ruleMapPhrase env0 intactPat [['i', 'n', 't', 'a', 'c', 't']]) ['I', 'n', ' ', ' ', 't', 'a', 'c', 't']) :=
+  closedCompound_paragraphs_separately env0 phIntact.1 phIntact.2 (by decide) ['i', 'n', 't', 'a', 'c', 't'] _ rfl asciiCls _ _ 2 _ _ _
+    paragraphPair_intact
+
+/-- non-vacuity of `pnRow_loc`, `properNoun_xlocal`, `properNoun_appends`: the row of `Port au` -/
+theorem pnRow_isLoc : pnRow.pat.Loc := pnRow_loc env0 pnDoc.1 pnDoc.2 (by decide) pnRow rfl
+
+example : XLocalE (properNounPiece env0 [pnRow]) :=
+  properNoun_xlocal env0 [pnRow] (by intro r hr; simp at hr; subst hr; exact pnRow_isLoc)
+
+theorem pnRows_of : [pnDoc].mapM (fun d => pnRowOf env0 d.1 d.2) = some [pnRow] := by
+  simp only [List.mapM_cons, List.mapM_nil]
+  rfl
+
+/-- non-vacuity of `properNoun_paragraphs_separately` / `properNounRule_paragraphs_separately`: `port Au.¶¶` + `Port  AU` -/
+example : docRule asciiCls noExt (ruleProperNoun env0 [pnRow])
+      ((['p', 'o', 'r', 't', ' ', 'A', 'u', '.'] ++ List.replicate 2 '\n') ++ ['P', 'o', 'r', 't', ' ', ' ', 'A', 'U']) =
+    joinE (['p', 'o', 'r', 't', ' ', 'A', 'u', '.'] ++ List.replicate 2 '\n').length
+      (docRule asciiCls noExt (ruleProperNoun env0 [pnRow]) (['p', 'o', 'r', 't', ' ', 'A', 'u', '.'] ++ List.replicate 2 '\n'))
+      (docRule asciiCls noExt (ruleProperNoun env0 [pnRow]) ['P', 'o', 'r', 't', ' ', ' ', 'A', 'U']) :=
+  properNounRule_paragraphs_separately env0 [pnDoc] (by decide) [pnRow] pnRows_of asciiCls _ _ 2 _ _ _ paragraphPair_port
+
+/-- … where the tokens of the `example` above are the document of these characters (so its two lints, one per
+paragraph, are the left-hand side here) -/
+example : (document asciiCls noExt
+      ((['p', 'o', 'r', 't', ' ', 'A', 'u', '.'] ++ List.replicate 2 '\n') ++ ['P', 'o', 'r', 't', ' ', ' ', 'A', 'U'])).toOption =
+    some [⟨⟨0, 4⟩, .word⟩, ⟨⟨4, 5⟩, .space 1⟩, ⟨⟨5, 7⟩, .word⟩, ⟨⟨7, 8⟩, .punct .Period⟩, ⟨⟨8, 10⟩, .paragraphBreak⟩,
+      ⟨⟨10, 14⟩, .word⟩, ⟨⟨14, 16⟩, .space 2⟩, ⟨⟨16, 18⟩, .word⟩] := by decide
+
 end Harper.C12
